@@ -173,14 +173,19 @@ def parse_content_disposition(
                 value = unescape(rstripped[1:-1].lstrip("\\/"))
             elif is_token(value):
                 failed = False
-            elif parts:
-                # maybe just ; in filename, in any case this is just
-                # one case fix, for proper fix we need to redesign parser
-                _value = f"{value};{parts[0]}"
-                if is_quoted(_value):
-                    parts.pop(0)
-                    value = unescape(_value[1:-1].lstrip("\\/"))
-                    failed = False
+            elif value.startswith('"'):
+                # semicolons inside a quoted-string: the header was split at
+                # every ";", so put the pieces back together up to the one
+                # that closes the quotes (for a proper fix the parser needs
+                # to be redesigned)
+                _value = value
+                for count, piece in enumerate(parts, 1):
+                    _value = f"{_value};{piece}"
+                    if is_quoted(_value.rstrip()):
+                        del parts[:count]
+                        value = unescape(_value.rstrip()[1:-1].lstrip("\\/"))
+                        failed = False
+                        break
 
             if failed:
                 warnings.warn(BadContentDispositionHeader(header))
